@@ -20,7 +20,6 @@ META = {
         "zipfile / os.path / open() behaviour is assumed (BadZipFile for a non-zip stream, is_zipfile, isdir); probed natively by C16.native_irregular",
         "PackURI.ext / rels_uri / baseURI / from_rel_ref enter as uninterpreted functions of the name (their contracts are C19)",
         "str.lower enters as an uninterpreted function; the contracts state results in terms of lower(name), lower(ext) only",
-        "_ContentTypeMap.from_xml, _PackageLoader._parts/_xml_rels (dict/set comprehensions and the recursive walk) are covered by the bounded job only",
     ],
     "trusted_base": ["z3 (arrays, strings as uninterpreted keys)", "zipfile, os.path", "C19 part-name contracts"],
 }
@@ -92,6 +91,64 @@ def _ct_getitem_str(c):
     m = SObj(_ContentTypeMap, "content_types", _overrides=ov, _defaults=df)
     out = c.run(_ContentTypeMap.__getitem__, m, SStr([Atom("key", zs=z3.String("key"))]))
     c.ensures("post.TypeError", out.raised and out.exc.exc_cls is TypeError)
+
+
+@contract("C16", "C16.opc.package._ContentTypeMap.from_xml", replay=_replay_ct, timeout_ms=30000)
+def _ct_from_xml(c):
+    """for any number of Override and Default elements in any spelling, asked for any part name: the map built by
+    from_xml answers with the content type of the LAST Override whose PartName equals the name up to case, else of the
+    LAST Default whose Extension equals the name's extension up to case, else KeyError -- composed with __getitem__, so
+    the two dicts only occur as what from_xml really built (dict(pairs) does not go through __setitem__)."""
+    from pptx.opc.package import _ContentTypeMap
+
+    c.summaries.update(OPTIONS)
+    made = []
+
+    def mk(tag):
+        if tag != "CaseInsensitiveDict":
+            return None
+        made.append(GDict(("overrides", "defaults", "extra")[min(len(made), 2)], key_of=name_key))
+        return made[-1]
+
+    c.summaries["<option>ghost_dicts"] = mk
+    no, nd = c.int("n_overrides"), c.int("n_defaults")
+    c.requires(z3.And(no >= 0, nd >= 0))
+    OPN = z3.Function("OVERRIDE_PARTNAME", z3.IntSort(), z3.StringSort())
+    OCT = z3.Function("OVERRIDE_CONTENT_TYPE", z3.IntSort(), z3.StringSort())
+    DEX = z3.Function("DEFAULT_EXTENSION", z3.IntSort(), z3.StringSort())
+    DCT = z3.Function("DEFAULT_CONTENT_TYPE", z3.IntSort(), z3.StringSort())
+    s_ = lambda nm, t: SStr([Atom(nm, zs=t)])
+    ovs = SSeq(no, lambda j: SObj(None, "override", partName=s_("PartName", OPN(j)), contentType=s_("ContentType", OCT(j))), name="override_lst")
+    dfs = SSeq(nd, lambda j: SObj(None, "default", extension=s_("Extension", DEX(j)), contentType=s_("ContentType", DCT(j))), name="default_lst")
+    types = SObj(None, "types_elm", override_lst=ovs, default_lst=dfs)
+    c.summaries["pptx.oxml:parse_xml"] = lambda it, a, k: types
+    c.summaries["pptx.opc.package:parse_xml"] = c.summaries["pptx.oxml:parse_xml"]
+    built = c.run(_ContentTypeMap.from_xml.__func__, _ContentTypeMap, SObj(None, "content_types_xml"))
+    if built.raised:
+        c.fails("from_xml_never_raises", "raised %s" % built.exc)
+        return
+    m = built.value
+    ok = isinstance(m, SObj) and m.cls is _ContentTypeMap and len(made) == 2
+    c.ensures("post.builds_a_map_over_two_case_insensitive_dicts", ok)
+    if not ok:
+        return
+    pn = GName(c.input("partname", z3.String("partname")))
+    ko, kd = LOWER(pn.zs), LOWER(EXT(pn.zs))
+    j = z3.Int("cj")
+    o_hit = lambda q: z3.And(0 <= q, q < no, LOWER(OPN(q)) == ko)
+    d_hit = lambda q: z3.And(0 <= q, q < nd, LOWER(DEX(q)) == kd)
+    any_o = z3.Exists([j], o_hit(j))
+    any_d = z3.Exists([j], d_hit(j))
+    out = c.run(_ContentTypeMap.__getitem__, m, pn)
+    if out.raised:
+        c.ensures("post.only_KeyError", out.exc.exc_cls is KeyError)
+        c.ensures("post.KeyError_only_when_no_element_declares_it", z3.And(z3.Not(any_o), z3.Not(any_d)))
+        return
+    z = name_key(out.value)
+    w = c.int("witness")
+    last_o = z3.And(o_hit(w), z3.ForAll([j], z3.Implies(z3.And(o_hit(j)), j <= w)), z == OCT(w))
+    last_d = z3.And(z3.Not(any_o), d_hit(w), z3.ForAll([j], z3.Implies(d_hit(j), j <= w)), z == DCT(w))
+    c.ensures("post.last_matching_override_else_last_matching_default", z3.Exists([w], z3.Or(last_o, last_d)))
 
 
 @contract("C16", "C16.opc.shared.CaseInsensitiveDict")
